@@ -1,0 +1,45 @@
+//go:build verif
+// +build verif
+
+package policy
+
+import (
+	"k8s.io/client-go/kubernetes"
+	corev1Lister "k8s.io/client-go/listers/core/v1"
+	networkingv1Lister "k8s.io/client-go/listers/networking/v1"
+	"k8s.io/client-go/tools/cache"
+	"tkestack.io/galaxy/pkg/utils/ipset"
+	utiliptables "tkestack.io/galaxy/pkg/utils/iptables"
+)
+
+// This file only exists with the `verif` build tag. It lets an external harness build a PolicyManager over
+// injected ipset/iptables handles and harness-owned indexers instead of exec-backed handles and self-started
+// informers.
+
+type verifSyncedInformer struct {
+	cache.SharedIndexInformer
+}
+
+func (verifSyncedInformer) HasSynced() bool { return true }
+
+// VerifNew creates a PolicyManager whose listers read the given indexers.
+func VerifNew(client kubernetes.Interface, ipsetHandle ipset.Interface, iptableHandle utiliptables.Interface,
+	hostName string, podIndexer, nsIndexer, policyIndexer cache.Indexer) *PolicyManager {
+	pm := &PolicyManager{
+		client:            client,
+		ipsetHandle:       ipsetHandle,
+		iptableHandle:     iptableHandle,
+		hostName:          hostName,
+		podCachedInformer: verifSyncedInformer{},
+		podLister:         corev1Lister.NewPodLister(podIndexer),
+		namespaceLister:   corev1Lister.NewNamespaceLister(nsIndexer),
+		policyLister:      networkingv1Lister.NewNetworkPolicyLister(policyIndexer),
+	}
+	pm.podInformerOnce.Do(func() {})
+	return pm
+}
+
+// VerifFullSync runs one full synchronisation.
+func (p *PolicyManager) VerifFullSync() {
+	p.Run()
+}
